@@ -75,19 +75,19 @@ def checkScan (fv nv : Int) (fs : List Ent) (old : Table Stamp) (out : Outcome S
 /-! ### copy-on-write shard set: observed run -/
 
 inductive CObs
-  | replaced (batch : List (Key × Bool)) (ranked : List (Key × Sid))   -- `replace(batch)` returned; `getLoaded` now gives `ranked`
-  | began (snap : List (Key × Sid))                                     -- a search took its snapshot
+  | replaced (batch : List (Nat × Bool)) (ranked : List (Nat × Nat))   -- `replace(batch)` returned; `getLoaded` now gives `ranked`
+  | began (snap : List (Nat × Nat))                                     -- a search took its snapshot
   | ended (i : Nat)                                                     -- search `i` (in order of `began`) finished
-  | closed (sids : List Sid)                                            -- finalizers ran `Close` on these
+  | closed (sids : List Nat)                                            -- finalizers ran `Close` on these
   deriving Repr
 
 structure CBook where
-  ranked : List (Key × Sid) := []
-  live : List (List (Key × Sid)) := []     -- snapshots of running searches (ended ones emptied)
-  closed : List Sid := []
-  next : Sid := 0
+  ranked : List (Nat × Nat) := []
+  live : List (List (Nat × Nat)) := []     -- snapshots of running searches (ended ones emptied)
+  closed : List Nat := []
+  next : Nat := 0
 
-def expectedAfter (ranked : List (Key × Sid)) : List (Key × Option Sid) → List (Key × Sid)
+def expectedAfter (ranked : List (Nat × Nat)) : List (Nat × Option Nat) → List (Nat × Nat)
   | [] => ranked
   | (k, some sid) :: t => expectedAfter (mapPut ranked k sid) t
   | (k, none) :: t => expectedAfter (mapErase ranked k) t
